@@ -49,8 +49,16 @@ static void env_step(void);                 /* harness: one complete operation o
 static void vr_after_switch(int k);         /* harness: ULTk has switched away; return when it runs again */
 static void vr_stuck(const char *where);    /* harness: nobody can act any more while somebody sleeps: assert the stuck predicate */
 
+#ifdef VR_RESUME_ELSEWHERE
+/* a blocked ULT may be popped and continued by ANOTHER stream (its pool is shared): the spare stream ESX with its scheduler
+ * SCHEDX hosts at most one moved ULT; the agent identity of that ULT follows it */
+static ABTI_xstream ESX; static ABTI_ythread SCHEDX; static int vr_moved = -1;
+static inline void as_agent(int k) { lp_ABTI_local = (k < 0) ? NULL : (k == vr_moved ? (ABTI_local *)&ESX : (ABTI_local *)ESP[k]); }
+static inline int cur_agent(void) { if (vr_moved >= 0 && lp_ABTI_local == (ABTI_local *)&ESX) return vr_moved; for (int k = 0; k < NES; k++) if (lp_ABTI_local == (ABTI_local *)ESP[k]) return k; return -1; }
+#else
 static inline void as_agent(int k) { lp_ABTI_local = (k < 0) ? NULL : (ABTI_local *)ESP[k]; }
 static inline int cur_agent(void) { for (int k = 0; k < NES; k++) if (lp_ABTI_local == (ABTI_local *)ESP[k]) return k; return -1; }
+#endif
 
 #ifdef VR_SP_EXTRA
 void VR_SP_EXTRA(void);
@@ -138,6 +146,7 @@ void switch_with_call_fcontext(void *cb_arg, void (*f_cb)(void *), fcontext_t *p
     if (vr_env_noblock) { __CPROVER_assume(0); return; }
     int k = ult_index_of_ctx(p_old_ctx);
     __CPROVER_assert(k >= 0, "switch model: the switching context is a work ULT");
+    __CPROVER_assume(k >= 0);          /* (reported above; do not explore the garbage that would follow) */
     p_old_ctx->dummy = (void *)1;      /* context stored ... */
     vr_saved[k] = 1;                   /* ... completely, before the callback runs (what E3 proves for the assembly) */
     vr_run_cb(f_cb, cb_arg);           /* REAL callback, on the parent's (scheduler's) side */
@@ -213,6 +222,11 @@ static void world_init(void)
         ESP[e]->p_thread = &ULTP[e]->thread; ESP[e]->rank = e; ESP[e]->type = e ? ABTI_XSTREAM_TYPE_SECONDARY : ABTI_XSTREAM_TYPE_PRIMARY;
         ESP[e]->state.val = ABT_XSTREAM_STATE_RUNNING;
     }
+#ifdef VR_RESUME_ELSEWHERE
+    world_init_thread(&SCHEDX, 0, 0, &ESX, ABTI_THREAD_TYPE_MAIN_SCHED);
+    ESX.p_thread = &SCHEDX.thread; ESX.rank = NES; ESX.type = ABTI_XSTREAM_TYPE_SECONDARY; ESX.state.val = ABT_XSTREAM_STATE_RUNNING;
+    G.num_xstreams = NES + 1; G.max_xstreams = NES + 1;
+#endif
 }
 /* standard "blocked ULT" continuation: the scheduler of ESk waits until ULTk is in its pool again, pops it with the
  * pool interface and runs it.  While waiting, other agents act.  If nobody can act any more: stuck predicate. */
@@ -230,6 +244,15 @@ static void world_wait_and_resume(int k)
     ESP[k]->p_thread = &SCHEDP[k]->thread;
     vr_resumed[k]++;
     ABTD_atomic_release_store_int(&ULTP[k]->thread.state, ABT_THREAD_STATE_RUNNING);   /* as ABTI_ythread_run_child does */
+#ifdef VR_RESUME_ELSEWHERE
+    if (vr_moved < 0) {    /* (always, in this variant: a solver choice here makes the agent identity symbolic and the encoding intractable; the stay-at-home case is the twin obligation without VR_RESUME_ELSEWHERE) */
+        /* the idle spare stream popped it: the ULT continues there, its old stream is back in its scheduler */
+        vr_moved = k; ESX.p_thread = &ULTP[k]->thread; ULTP[k]->thread.p_last_xstream = &ESX; ULTP[k]->thread.p_parent = &SCHEDX.thread;
+        as_agent(k);
+        return;
+    }
+    if (vr_moved == k) { ESX.p_thread = &ULTP[k]->thread; ULTP[k]->thread.p_last_xstream = &ESX; ULTP[k]->thread.p_parent = &SCHEDX.thread; as_agent(k); return; }
+#endif
     ESP[k]->p_thread = &ULTP[k]->thread;
     ULTP[k]->thread.p_last_xstream = ESP[k];
 }
